@@ -109,7 +109,7 @@ def explore(ctx):
         st = gen.agg_stage(rng)
         if not st[1]:
             continue
-        tail = [] if rng.random() < 0.6 else [('limit', rng.choice([1, 2, 3, -1, -2]))]
+        tail = [] if rng.random() < 0.6 else [('limit', rng.choice([1, 2, 3, -1, -2, None]))]
         cases.append(Case('a%d' % i, STAR, [('json', None), st] + tail, [gen.jtext(r) for r in rows], {'implicit'}, note={'stage': st, 'limited': bool(tail)}))
     # computed keys, several directions: against the model only
     for i in range(n // 3):
